@@ -1373,6 +1373,28 @@ def _r3(ctx, oa):
             if sbi2 in region:
                 okc = thr == 5 and leaves
                 why = 'the run ends when the counter exceeds %d (required: more than five consecutive loops)' % thr
+        if not okc and why == 'exit condition not recognised':
+            # the comparison after the join of the threshold / no-threshold paths (`count = match .. { .. + 1, _ => 0 };
+            # if count > 5`): the same test, provided the path without a threshold reaches it with the counter reset to 0
+            body_blocks = (oa.outer or oa.inner)['body']
+            from ..mirutil import copy_web as _cw
+            cweb = _cw(b, tr, cfg.reach, counter) | {counter}
+            zero_defs = {dd[0] for l2 in cweb for dd in defs.of(l2) if dd[2] == 'assign' and dd[3]['r'] == 'use' and
+                         dd[3]['a'].get('k') == 'const' and const_value(dd[3]['a']) == 0 and dd[0] in cfg.reach
+                         and dd[0] in body_blocks}
+            exits = []
+            for x_ in sorted(cweb):
+                for e_ in _threshold_exits(b, cfg, tr, x_, within=body_blocks):
+                    if e_ not in exits:
+                        exits.append(e_)
+            for (cbi, thr, sbi2, leaves) in exits:
+                if cbi in region or sbi2 in region:
+                    continue
+                resets = none_t in zero_defs or (bool(zero_defs) and cfg.all_paths_pass_through([none_t], zero_defs, until={cbi})[0])
+                reached, _ = cfg.all_paths_pass_through([some_t], {cbi}, until={hdr})
+                if resets and reached:
+                    okc = thr == 5 and leaves
+                    why = 'the run ends when the counter exceeds %d (required: more than five consecutive loops)' % thr
         # increment condition: (score_current - score_start) < precision
         inc_ok = False
         for bi in sorted(region):
@@ -1395,11 +1417,38 @@ def _r3(ctx, oa):
                         dd = defs.single(l)
                         return bool(dd) and dd[2] == 'assign' and dd[3]['r'] == 'use' and dd[0] in oa.outer['body'] and \
                             dd[0] not in oa.inner['body'] and cfg.dominates(dd[0], ihdr) and tr.origin(dd[3]['a']).get('l') in web
+                    def late_snapshot(l):
+                        # ... or taken after the inner loop from a variable S of the running-score web that the inner loop does
+                        # not write (the loop runs on its own accumulator, started from S) and that has not yet received the
+                        # loop's result: S still holds the score the inner loop started from
+                        dd = defs.single(l)
+                        if not (bool(dd) and dd[2] == 'assign' and dd[3]['r'] == 'use' and dd[0] in oa.outer['body'] and
+                                dd[0] not in oa.inner['body']):
+                            return False
+                        so = tr.origin(dd[3]['a'])
+                        S = so.get('l')
+                        if S is None or S not in web or so.get('p'):
+                            return False
+                        sdefs = [x for x in defs.of(S) if x[0] in cfg.reach]
+                        if any(x[0] in oa.inner['body'] for x in sdefs):
+                            return False
+                        # S is written in the outer body only after the snapshot: every such definition is dominated by the
+                        # snapshot's block (or follows it in the same block)
+                        for x in sdefs:
+                            if x[0] not in oa.outer['body']:
+                                continue
+                            if x[0] == dd[0]:
+                                if not (isinstance(x[1], int) and isinstance(dd[1], int) and x[1] > dd[1]) and x[1] != 'term':
+                                    return False
+                            elif not cfg.dominates(dd[0], x[0]):
+                                return False
+                        # and the snapshot itself comes after the inner loop in the iteration
+                        return cfg.dominates(ihdr, dd[0])
                     cur = oa.arg_local(d['rv']['a'])
                     # score_start: a snapshot of score_current taken in the outer body before the inner loop
                     start_ok = False
                     for (cl, cbb) in list(tr.chain(d['rv']['b'])) + [(tr.origin(d['rv']['b']).get('l'), None)]:
-                        if cl is not None and cl in web and snapshot(cl):
+                        if cl is not None and cl in web and (snapshot(cl) or late_snapshot(cl)):
                             start_ok = True
                     inc_ok = pconv and cur in web and not snapshot(cur) and start_ok
                     # true edge increments, false edge resets
